@@ -36,6 +36,9 @@ def classify_tag_use(n):
     if isinstance(p, ast.Compare) and any(isinstance(c, ast.Constant) and c.value is None
                                           for c in [p.left] + p.comparators):
         return 'none-test'
+    if isinstance(p, ast.Compare) and len(p.ops) == 1 and isinstance(p.ops[0], (ast.In, ast.NotIn)) and \
+       p.left is n and isinstance(p.comparators[0], ast.Attribute) and p.comparators[0].attr == 'by_tag':
+        return 'by_tag-membership'
     # inside a % format argument (message)
     q = n
     while q is not None and not isinstance(q, ast.stmt):
